@@ -348,6 +348,9 @@ func checkC08(p *Prog, r *Report) {
 	ruleGuardTable(p, r, "R08.g", "C08")
 	ruleMergeCompleteness(p, r, "R18.1", map[string]bool{"panos": true})
 	ruleStickyState(p, r, "C08", map[string]bool{"cisco": true, "asa": true, "ios": true}, 9)
+	r.rule("R-M", "Mark discipline (PAN-OS, NSX): the marks needed / nameOnDevice decide which objects are transferred before the rules that reference them and under which name a rule refers to a group; every store into such a mark lies at a function+site whose controlling conditions are audited rows of tables/guards.tsv (compared by R08.g).")
+	ruleMarkDiscipline(p, r, "R-M", "C08", "panos", []string{".needed", ".nameOnDevice"}, 14)
+	ruleMarkDiscipline(p, r, "R-M", "C08", "nsx", []string{".needed", ".nameOnDevice"}, 6)
 	r.Trusted = []string{"go/ssa, call graph", "audited guard sets in tables/guards.tsv"}
 	r.NotDec = "referential validity of a concrete script; line-number arithmetic beyond the agreement of the constants; duplicate ACL entries"
 }
